@@ -18,8 +18,7 @@ CASE_TIMEOUT = {"quick": 300, "thorough": 500}
 RULE = (
     "2-4-component models (every atom in exactly one component) with cross-component references in both "
     "directions - states, parameters and intermediates of one component used by another, exported intermediates "
-    "at varying depth of the dependency order - x each component chosen as the split C x backend {numpy, jax} "
-    "(C backend: one probe per case, see known findings) x points. Oracle: (a) missing_variables of C.to_ode() "
+    "at varying depth of the dependency order - x each component chosen as the split C x backend {numpy, C, jax} x points. Oracle: (a) missing_variables of C.to_ode() "
     "and of model - C equal the 'used but not defined' set computed on our AST; (b) the two state sets "
     "partition the original's; (c) with missing_variables filled by name from the 256-bit reference of the "
     "FULL model, each sub-model's rhs, monitor_values, explicit_euler and generalized_rush_larsen equal the "
@@ -65,7 +64,7 @@ def strategy(tier):
                             a["expr"] = ["bin", "+", a["expr"], ["var", nm]]
         need = [X.deriv_name(s["name"]) for s in model["states"]]
         pts = G.draw_points(draw, model, 2, need)
-        return {"model": model, "points": pts, "split": draw(st.sampled_from(comps)), "backend": draw(st.sampled_from(["numpy", "numpy", "numpy", "jax"])), "dt": 0.01, "c_probe": draw(st.integers(0, 7)) == 0}
+        return {"model": model, "points": pts, "split": draw(st.sampled_from(comps)), "backend": draw(st.sampled_from(["numpy", "numpy", "C", "C", "jax"])), "dt": 0.01, "c_probe": draw(st.integers(0, 7)) == 0}
 
     return _s()
 
@@ -90,13 +89,21 @@ def used_not_defined(sub) -> set:
     return used - defined
 
 
-def build(backend, ode, missing_values):
+def build(backend, ode, missing_values, sub=None):
     try:
-        code = B.py_code(ode, schemes=["explicit_euler"], backend=backend, missing_values=missing_values or None)
+        if backend == "C":
+            code = B.c_code(ode, schemes=["explicit_euler"], missing_values=missing_values or None)
+        else:
+            code = B.py_code(ode, schemes=["explicit_euler"], backend=backend, missing_values=missing_values or None)
     except Exception as ex:
         raise GenError("codegen", ex, None)
     try:
+        if backend == "C":
+            names = {"state": X.state_names(sub), "parameter": X.param_names(sub), "monitor": [a["name"] for a in sub["assigns"]], "missing": sorted(ode.missing_variables)}
+            return CMod(code, names)
         return JaxMod(code) if backend == "jax" else PyMod(code)
+    except B.CompileError as ex:
+        raise GenError("compile", ex, code)
     except Exception as ex:
         raise GenError("import", ex, code)
 
@@ -133,7 +140,7 @@ def check_case(case):
     mods = {}
     for label, o, sub, other in sides:
         try:
-            mods[label] = build(backend, o, other.missing_variables)
+            mods[label] = build(backend, o, other.missing_variables, sub)
         except GenError as ex:
             raise Violation(f"C13:{backend}:{label}:{ex.signature()}", dict(ctx, error=str(ex)[:800], code=ex.code))
     deep_export = False
@@ -162,6 +169,7 @@ def check_case(case):
             exp_mon = {k: v for k, v in fullcheck.expected_monitor(model, ev).items() if k in own_assigns}
             # the sub-model sees the other side's values rounded to float64
             kw = {"jit": True} if backend == "jax" else {}
+            kwmv = dict(kw, nout=len(other.missing_variables)) if backend == "C" else kw
             n_ok += fullcheck.compare_slots("C13", mod, "rhs", "state", exp_rhs, sub_pt, missing=miss, counters=counters, ctx=c2, K=256, call_kw=kw)
             n_ok += fullcheck.compare_slots("C13", mod, "monitor_values", "monitor", exp_mon, sub_pt, missing=miss, counters=counters, ctx=c2, K=256, call_kw=kw)
             exp_fe = {k: v for k, v in fullcheck.expected_scheme(model, pt, case["dt"], "explicit_euler").items() if k in own_states}
@@ -172,7 +180,7 @@ def check_case(case):
                 if not mod.has("missing_values"):
                     raise Violation(f"C13:{backend}:{label}:missing_values-not-generated", c2)
                 try:
-                    mv = mod.call("missing_values", sub_pt, missing=miss, **kw)
+                    mv = mod.call("missing_values", sub_pt, missing=miss, **kwmv)
                 except Exception as ex:
                     raise Violation(f"C13:{backend}:{label}:missing_values:call-{type(ex).__name__}", dict(c2, error=str(ex)[:500]))
                 if mv.shape != (len(want_idx),):
@@ -204,6 +212,6 @@ def check_case(case):
 
 CLAIM = {
     "text": "Bounded random exploration: multi-component models with cross references in both directions are split at every component; the used-but-undefined sets are recomputed independently, and both sub-models (NumPy and JAX) are executed with missing values taken by name from the full model's 256-bit reference and compared for rhs, monitored values and the generated missing_values functions. No absence claim.",
-    "note": "Trusted: vlib/refsem.py on the full model. The C backend with missing variables is an open known finding (does not compile).",
+    "note": "Trusted: vlib/refsem.py on the full model. C modules get their missing index through the generated missing_index function.",
     "technique": "property-based testing (Hypothesis): complementary-split relation checked against a reference model of the unsplit system",
 }
